@@ -1,7 +1,7 @@
 SPECIFICATION Spec
 CONSTANTS NU = 1  NG = 2  NC = 0  MaxOps = 3  Spurious = FALSE
   Amts <- A1  Ops <- OpsA  KickSets <- KS1
-  ClearAtomic = FALSE  LogAtomic = TRUE  KickConsume = TRUE  OfflineOnVeto = TRUE  CloseOnLateVeto = TRUE  OnlineFloor = TRUE
+  ClearAtomic = FALSE  LogAtomic = TRUE  KickConsume = TRUE  OfflineOnVeto = TRUE  CloseOnLateVeto = TRUE  AuthAtomic = TRUE  OnlineFloor = TRUE
 INVARIANT NoViolation
 VIEW View
 CHECK_DEADLOCK FALSE
